@@ -43,7 +43,7 @@ def fspec(op):
     """What a frame description means, written independently of the code under test:
     (outer ethertype — what `ethernet.type` is —, the header fields an exact OpenFlow 1.0 match of the frame has, is it IPv4 TCP/UDP/ICMP).
     Fields: [dl_vlan, dl_vlan_pcp, dl_type, nw_tos, nw_proto, nw_src, nw_dst, tp_src, tp_dst], None = the field does not apply.
-    `x` refines a kind: tos, proto (kind ipraw), dport, code, op (ARP opcode), sip, dip, vlan [id, pcp]."""
+    `x` refines a kind: tos, proto (kind ipraw), dport, code, op (ARP opcode), sip, dip, vlan [id, pcp], frag (IPv4 flags+offset word)."""
     kind, key, x = op["kind"], op["key"], op.get("x") or {}
     inner = {"udp": 0x0800, "tcp": 0x0800, "icmp": 0x0800, "ipraw": 0x0800, "arp": 0x0806, "lldp": LLDP_TYPE, "raw": 0x88b5, "raw6": 0x0600}[kind]
     vl = x.get("vlan")
@@ -53,6 +53,10 @@ def fspec(op):
         f[3:7] = [x.get("tos", 0) & 0xfc, proto, x.get("sip", IP_A), x.get("dip", IP_B)]
         if kind in ("udp", "tcp"): f[7:9] = [key, x.get("dport", 9)]
         elif kind == "icmp": f[7:9] = [key & 0xff, x.get("code", 0)]
+        # OpenFlow 1.0 §3.4 (flow-chart, "IP fragment?"): a fragment — More Fragments set or a non-zero offset — is looked up with
+        # both transport ports zero, whatever its protocol; x["frag"] is the 16-bit flags+offset word of the IPv4 header
+        # (for a protocol without transport fields the installed match ignores them anyway: prerequisites not met)
+        if x.get("frag", 0) & 0x3fff and kind in ("udp", "tcp", "icmp"): f[7:9] = [0, 0]
     elif inner == 0x0806:
         f[4:7] = [x.get("op", 1) & 0xff, x.get("sip", IP_A), 0x0a000000 | (key & 0xffff)]
     return (0x8100 if vl else inner), f, kind in ("udp", "tcp", "icmp")
@@ -302,6 +306,8 @@ class C11(Check):
                 ic = icmp(type=key & 0xff, code=x.get("code", 0)); ic.payload = body; ip.payload = ic
             else:
                 ip.payload = body
+            if x.get("frag") is not None:            # (the L4 header, if any, sits whole in the fragment: it re-serialises to the same bytes)
+                ip.flags = (x["frag"] >> 13) & 7; ip.frag = x["frag"] & 0x1fff
             l3 = ip
         elif inner_type == 0x0806:
             l3 = arp(opcode=x.get("op", 1), hwsrc=EthAddr(mac_bytes(src)), hwdst=EthAddr(b"\0" * 5 + bytes([pay & 0xff])),
@@ -565,6 +571,14 @@ class C11(Check):
         for sip, dip in ((0, 0xffffffff), (0xffffffff, 0), (0x7f000001, 0xe0000001), (0x0a000001, 0x0a000001)):
             cases.append(probe("udp", x={"sip": sip, "dip": dip})); cases.append(probe("arp", x={"sip": sip}))
         cases.append(probe("tcp", x={"tos": 0x2c, "vlan": [7, 5], "dport": 0}))
+        # IPv4 fragments: first (MF, offset 0), middle (MF, offset), last (offset only), DF only (not a fragment), DF+MF, the largest
+        # offset — every kind, with a free buffer and without one (no buffer: the frame comes back inside a packet_out for OFPP_TABLE and
+        # must hit the entry the controller has just installed)
+        for frag in (0x2000, 0x2005, 0x0005, 0x4000, 0x6000, 0x1fff, 0x3fff, 0x0001):
+            for kind in ("udp", "tcp", "icmp", "ipraw"):
+                for bufs in (0, 1):
+                    cases.append(probe(kind, key=8 if kind == "icmp" else 1, x={"frag": frag}, bufs=bufs))
+        cases.append(probe("udp", x={"frag": 0x2000, "vlan": [5, 1], "tos": 0x10}, bufs=0))
         # (5) bursts: several frames reach the switch before the control channel moves — several packet-ins in one read at the controller, several
         #     answers in one read at the switch, more misses than buffers; judged by the oracle (ideal bridge), frame by frame
         f = lambda port, src, dst, pay, kind="udp", key=1: {"port": port, "src": src, "dst": dst, "kind": kind, "key": key, "pay": pay}
@@ -688,6 +702,7 @@ class C11(Check):
                     if kind == "icmp" and rng.random() < 0.3: x["code"] = rng.choice([0, 1, 255])
                     if kind == "arp" and rng.random() < 0.3: x["op"] = rng.choice([0, 2, 256, 257])
                     if rng.random() < 0.25: x["vlan"] = [rng.choice([0, 1, 100, 4095]), rng.choice([0, 3, 7])]
+                    if kind in ("udp", "tcp", "icmp", "ipraw") and rng.random() < 0.25: x["frag"] = rng.choice([0x2000, 0x2000, 0x2010, 0x0010, 0x4000, 0x6000])
                 ops.append(self.rx(port, src, dst, kind, key, pay, sw, x))
         return {"transparent": rng.random() < 0.25, "pd": rng.random() < 0.7, "switches": sws, "links": links, "ops": ops}
 
